@@ -734,7 +734,9 @@ func runC34(tier, replay string) {
 				break
 			}
 			// an Origin-bearing request makes the server resolve (and possibly cache) "no configuration"
-			cs.g.do(reqSpec{Method: "GET", Host: cs.g.api, Path: "/corsb/obj", Headers: map[string]string{"Origin": "https://app.example.com"}})
+			if si%4 == 0 {
+				cs.g.do(reqSpec{Method: "GET", Host: cs.g.api, Path: "/corsb/obj", Headers: map[string]string{"Origin": "https://app.example.com"}})
+			}
 		} else {
 			r.Count("configurations_replacing_a_used_one", 1)
 		}
